@@ -384,6 +384,10 @@ func randFmtAl(rng *rand.Rand, tier string, strictNames bool) fmtAl {
 			for j := 1; j < k; j++ {
 				nm[j] = nameChars[rng.Intn(len(nameChars))]
 			}
+			if rng.Intn(25) == 0 {
+				// names spelling a word some lexer knows
+				nm = []byte([]string{"clustal", "CLUSTAL", "clustalw", "begin", "end", "matrix", "format", "dimensions", "MUSCLE", "STOCKHOLM"}[rng.Intn(10)])
+			}
 			if !used[string(nm)] {
 				break
 			}
